@@ -225,11 +225,14 @@ GEV1_FIELDS = {"Mu", "MassB", "MassWB", "MassG", "vd", "vu", "scale", "Ae", "Au"
                "mb_DRbar_MZ", "v1", "v2",
                # THDM parameter structs
                "mm", "mw", "mz", "mhSM", "mA", "mHp", "mh", "ml", "mu", "md", "mv"}
-GEV2_FIELDS = {"ml2", "me2", "mq2", "mu2", "md2", "BMu", "mHd2", "mHu2", "m122", "m112", "m222"}
+GEV2_FIELDS = {"ml2", "me2", "mq2", "mu2", "md2", "BMu", "mHd2", "mHu2", "m122", "m112", "m222", "mw2", "mz2"}
 GEV0_FIELDS = {"g1", "g2", "g3", "Ye", "Yu", "Yd", "EL", "EL0", "alpha_em", "tb", "zetal", "cos_beta_minus_alpha",
                "lambda5", "lambda67", "vckm", "yuh", "yuH", "yuA", "yuHp", "ydh", "ydH", "ydA", "ydHp", "ylh", "ylH",
                "ylA", "ylHp", "lambda1", "lambda2", "lambda3", "lambda4", "lambda5", "lambda6", "lambda7",
-               "verbose_output", "force_output", "qf", "ql", "t3f", "t3l", "nc", "qd", "qu", "mw2_", "eps"}
+               "verbose_output", "force_output", "qf", "ql", "t3f", "t3l", "nc", "qd", "qu", "mw2_", "eps",
+               "Pi_u", "Pi_d", "Pi_l", "Delta_u", "Delta_d", "Delta_l", "Gamma_u", "Gamma_d", "Gamma_l",
+               "zeta_u", "zeta_d", "zeta_l", "yukawa_type", "ckm", "alpha_em_mz", "alpha_em_0", "alpha_s_mz",
+               "running_couplings"}
 import re as _re
 _MASS_FIELD = _re.compile(r"^M(S|F|V|C|G|A|h|H)[A-Za-z0-9]*$")
 DIMLESS_FUNCS = {"log", "exp", "dilog", "f_PS", "f_S", "f_sferm", "F1C", "F2C", "F3C", "F4C", "F1N", "F2N", "F3N", "F4N",
@@ -352,6 +355,26 @@ def units(t, param_dims=None, summaries=None):
                 return d if d in (None, ANY) else -d
             if name in ("complex",):
                 return unify(u(args[0]), u(args[1]), t)
+            if name == "Phi" and len(args) == 3:        # Phi(kx,ky,kz) = k Phi(x,y,z)
+                d = u(args[0])
+                for a in args[1:]:
+                    d = unify(d, u(a), t)
+                return d
+            if name == "lambda_2" and len(args) == 3:   # Kaellen function of three squared masses
+                d = u(args[0])
+                for a in args[1:]:
+                    d = unify(d, u(a), t)
+                return d if d in (None, ANY) else d * 2
+            if name == "lambda_2" and len(args) == 2:
+                for a in args:
+                    d = u(a)
+                    if d not in (None, ANY) and d != 0:
+                        raise UnitFail("argument of lambda_2(u,v) has dimension GeV^%s" % d, t)
+                return Fraction(0)
+            if name == "shift" and len(args) == 3:
+                return unify(u(args[0]), u(args[1]), t)
+            if name == "sort":
+                return None
             if name in ("isfinite", "isnan", "is_zero", "is_equal", "is_equal_rel", "allFinite", "sign"):
                 return Fraction(0)
             if name in ("quiet_NaN", "epsilon", "max_", "signaling_NaN"):
